@@ -311,7 +311,11 @@ class ElectronicControlUnit:
             next_wakeup = self.j1939_dll.async_job_thread(now)
 
             # check timer events
-            for event in self._timer_events:
+            # iterate over a copy: expired events are removed below and callbacks may add or remove events
+            for event in list(self._timer_events):
+                if event not in self._timer_events:
+                    # removed by a previous callback
+                    continue
                 if event['deadline'] > now:
                     if next_wakeup > event['deadline']:
                         next_wakeup = event['deadline']
@@ -326,7 +330,7 @@ class ElectronicControlUnit:
                         # recalc next wakeup
                         if next_wakeup > event['deadline']:
                             next_wakeup = event['deadline']
-                    else:
+                    elif event in self._timer_events:
                         # remove from list
                         self._timer_events.remove( event )
 
